@@ -124,7 +124,9 @@ PROPS = {
         "invariants": ["C06", "C17_ValueIffGraceful", "C14"],
         "mc": {"quick": [mc("Fail-own-2x2", ops=("send", "call", "await", "join", "stopped"), scripts="ScriptsFail", cfgs="CfgsFailOwn", kinds="InitKindsOwn",
                             faults=("cancel",), maxfaults=1, must_cover=("Cancel", "ScriptStep", "JoinReturn", "AwaitReturn"))],
-               "thorough": [mc("Fail-own-2x3", maxops=3, ops=("send", "call", "await", "join", "stopped", "ping"), scripts="ScriptsFail", cfgs="CfgsFailOwn", kinds="InitKindsOwn", faults=("cancel",), maxfaults=1),
+               "thorough": [mc("Fail-peer-2x2", actors=("a1", "a2"), extra_actors="PeerActors", extra_handles="PeerHandles", ops=("send", "call", "stop"), scripts="ScriptsPeer",
+                               cfgs="CfgsB1", faults=("cancel",), maxfaults=1, must_cover=("Cancel", "ScriptStep")),
+                            mc("Fail-own-2x3", maxops=3, ops=("send", "call", "await", "join", "stopped", "ping"), scripts="ScriptsFail", cfgs="CfgsFailOwn", kinds="InitKindsOwn", faults=("cancel",), maxfaults=1),
                             mc("Fail-3x2", clients=C3, ops=("send", "call", "await", "halt", "upgrade"), scripts="ScriptsFail", cfgs="CfgsFail", kinds="InitKindsAW", faults=("cancel",), maxfaults=2)]},
         "families": [("fail", 300, 3000), ("tree", 80, 800), ("timers", 80, 800), ("registry", 80, 800)],
         "relevant": r'"how":"panic"|"ev":"cancel"|"e":"err"|h_abandon', "relevant_min": 1,
